@@ -2,7 +2,7 @@ import OdxVerif.Proofs.AtomicRT
 import OdxVerif.Spec.NumRepr
 import OdxVerif.Proofs.FlatBits
 /-! # C02 — encoded PDUs are bit-exact with the ODX wire format
-    Tier proved here: **atomic objects** (every `A_INT32` encoding, every bit length ≥ 1, bit position,
+    Tier proved here: **atomic objects** (every `A_INT32` encoding, every bit length 1…64, bit position,
     byte order, arbitrary surrounding message). The composite tiers (positions relative to the enclosing
     structure, keys, fields) are covered by the executable model `Model/Codec.lean` + correspondence and
     by the positional reference interpreter of the harness; they are not yet theorems — hence `_partial`
@@ -54,7 +54,7 @@ theorem C02_numrepr (enc : Option Enc) (hk : int32Known enc = true) (bl : Nat) (
     `pos + k-1-(j+bp)/8` for high-low, `pos + (j+bp)/8` for low-high byte order, bit `(j+bp) % 8`;
     every other bit of those `k` bytes and every other byte of the message keeps its previous value
     (bytes beyond the old end are zero). -/
-theorem C02_atomic_layout (enc : Option Enc) (hk : int32Known enc = true) (bl : Nat) (hbl : 1 ≤ bl) (v : Int)
+theorem C02_atomic_layout (enc : Option Enc) (hk : int32Known enc = true) (bl : Nat) (hbl : 1 ≤ bl) (hbl64 : bl ≤ 64) (v : Int)
     (hr : Spec.representable enc bl v) (hl : Bool) (s : EncState) :
     ∃ s', emplaceAtomic (.int v) bl .int32 enc hl none s true = .ok ((), s') ∧
       (∀ j, j < bl → getBit s'.msg (absBit s.cursorByte ((bl + s.cursorBit + 7) / 8) hl (j + s.cursorBit))
@@ -63,7 +63,7 @@ theorem C02_atomic_layout (enc : Option Enc) (hk : int32Known enc = true) (bl : 
           getBit s'.msg (absBit s.cursorByte ((bl + s.cursorBit + 7) / 8) hl t)
             = getBit s.msg (absBit s.cursorByte ((bl + s.cursorBit + 7) / 8) hl t)) ∧
       (∀ i, i < s.cursorByte ∨ s.cursorByte + (bl + s.cursorBit + 7) / 8 ≤ i → s'.msg.getD i 0 = s.msg.getD i 0) := by
-  obtain ⟨s', he, hm, _, _⟩ := emplaceAtomic_int32 enc hk bl hbl v hr hl s
+  obtain ⟨s', he, hm, _, _⟩ := emplaceAtomic_int32 enc hk bl hbl hbl64 v hr hl s
   refine ⟨s', he, ?_, ?_, ?_⟩
   · intro j hj
     rw [hm, getBit_place_inside _ _ _ _ _ _ _ (by omega), Nat.testBit_mul_two_pow, Nat.testBit_mul_two_pow,
@@ -80,12 +80,12 @@ theorem C02_atomic_layout (enc : Option Enc) (hk : int32Known enc = true) (bl : 
       (by rw [ord_length, toBytesBE_length]; exact hi)]
 
 /-- decoding reads the same bits back (atomic tier): the strict decoder at the same position returns the value -/
-theorem C02_decode_reads (enc : Option Enc) (hk : int32Known enc = true) (bl : Nat) (hbl : 1 ≤ bl) (v : Int)
+theorem C02_decode_reads (enc : Option Enc) (hk : int32Known enc = true) (bl : Nat) (hbl : 1 ≤ bl) (hbl64 : bl ≤ 64) (v : Int)
     (hr : Spec.representable enc bl v) (hl : Bool) (s : EncState) (hmsg : AllBytes s.msg) :
     ∃ s', emplaceAtomic (.int v) bl .int32 enc hl none s true = .ok ((), s') ∧
       extractAtomic bl .int32 enc hl { msg := s'.msg, cursorByte := s.cursorByte, cursorBit := s.cursorBit } true =
         .ok (.int v, { msg := s'.msg, cursorByte := s'.cursorByte, cursorBit := 0 }) := by
-  obtain ⟨s', h1, _, h3⟩ := atomic_int32_roundtrip enc hk bl hbl v hr hl s hmsg
+  obtain ⟨s', h1, _, h3⟩ := atomic_int32_roundtrip enc hk bl hbl hbl64 v hr hl s hmsg
   exact ⟨s', h1, h3⟩
 
 /-- **Bit-exact PDUs, flat composite tier.** For a request/response/structure made of (≤ 4000) positioned
@@ -112,7 +112,7 @@ theorem C02_bit_exact_flat (ovs : List (Obj × Int)) (hlen : ovs.length ≤ 4000
   constructor
   · intro pre o v post heq j hj
     have hmem : (o, v) ∈ ovs := by rw [heq]; simp
-    obtain ⟨⟨hk, hbl⟩, hr⟩ := hok (o, v) hmem
+    obtain ⟨⟨hk, hbl, _⟩, hr⟩ := hok (o, v) hmem
     have := flat_described pre post o v s0 (by rw [← heq, hwarn, hw]) j hj
     rw [← heq, hpdu, ho, hc] at this
     rw [this, C02_numrepr o.enc hk o.bl hbl v hr]
